@@ -1204,3 +1204,14 @@ func typeHasPtr(t *llread.Type) bool {
 	}
 	return false
 }
+
+// CallOn runs a further function on a state that has already returned (harness helper for
+// multi-step scenarios): the heap and path condition are kept, the terminal status is reset.
+func (ex *Exec) CallOn(st *State, fn *llread.Func, args []Val) []*State {
+	st.Term = Running
+	st.TermMsg = ""
+	st.Ret = Val{}
+	st.Steps = 0
+	ex.Call(st, fn, args)
+	return ex.Run(st)
+}
